@@ -228,6 +228,11 @@ func (st *state) handle(ctx *app.RequestContext) {
 			ctx.Flush()
 		}
 		ctx.AbortWithMsg(string(b[k:]), 500)
+	case "chunkw-abort0":
+		// ... or fails before the first piece: the writer is installed, nothing written yet.
+		// AbortWithMsg resets the header fields (documented) and answers with its own status.
+		ctx.Response.HijackWriter(resp.NewChunkedBodyWriter(&ctx.Response, ctx.GetWriter()))
+		ctx.AbortWithMsg(string(b), p.Status)
 	case "unknown-length":
 		// the documented "length unknown" marker on the header, then a body (or none, for HEAD)
 		ctx.Response.Header.SetContentLength(-2)
@@ -301,7 +306,7 @@ func (st *state) handle(ctx *app.RequestContext) {
 	}
 }
 
-var modes = []string{"none", "setbody", "string", "data", "append", "stream-known", "stream-unknown", "stream-limited", "chunkw", "chunkw", "json", "redirect", "file", "abortmsg", "setbodyraw", "raw-append", "chunkw-string", "chunkw-stream", "chunkw-raw", "chunkw-file", "chunkw-abort", "unknown-length"}
+var modes = []string{"none", "setbody", "string", "data", "append", "stream-known", "stream-unknown", "stream-limited", "chunkw", "chunkw", "json", "redirect", "file", "abortmsg", "setbodyraw", "raw-append", "chunkw-string", "chunkw-stream", "chunkw-raw", "chunkw-file", "chunkw-abort", "chunkw-abort0", "unknown-length"}
 
 // files of the sizes the programs use, created once per worker process
 var fileDir string
@@ -378,7 +383,7 @@ func oneConn(w *mon.W, c *mon.Case, e *route.Engine, st *state, lb *loop.Server)
 		if p.Mode == "unknown-length" && i != n-1 {
 			p.Mode = "setbody" // (the marker also asks for the connection to be closed: last request only)
 		}
-		p.Close = i == n-1 && r.Chance(3)
+		p.Close = i == n-1 && r.Chance(3) && p.Mode != "chunkw-abort0" // (AbortWithMsg also drops a close asked for before it)
 		p.HTTP10 = r.Chance(6)
 		p.KA10 = p.HTTP10 && (i < n-1 || r.Bool())
 		progs = append(progs, p)
@@ -552,7 +557,7 @@ func compare(m *wire.Message, p prog, id int) string {
 	if m.Status != wantStatus(p) {
 		return fmt.Sprintf("status %d want %d", m.Status, wantStatus(p))
 	}
-	if v, _ := m.Get("X-Id"); v != strconv.Itoa(id) {
+	if v, _ := m.Get("X-Id"); v != strconv.Itoa(id) && p.Mode != "chunkw-abort0" {
 		return fmt.Sprintf("X-Id %q want %d (responses out of order?)", v, id)
 	}
 	want := wantBody(p, id)
@@ -578,6 +583,9 @@ func compare(m *wire.Message, p prog, id int) string {
 	}
 	if p.BigHead > 0 {
 		wantH["X-Big"] = []string{strings.Repeat("h", p.BigHead)}
+	}
+	if p.Mode == "chunkw-abort0" {
+		wantH = map[string][]string{} // (AbortWithMsg drops the fields set before it)
 	}
 	gotH := map[string][]string{}
 	for _, f := range m.Fields {
